@@ -524,6 +524,30 @@ func vfC03Run(t *testing.T, dir string, c *vfC03Case) (violation string, notes [
 						fail("route refresh (wire=%v): after a background refresh that answered %v, %v is served another question's data", wire, c.Q2, c.Q1)
 					}
 				}
+			case "refresh-ecs":
+				// Q1's shared entry ages into the prefetch window and is hit by a client that sends a subnet (and nothing
+				// else in its OPT): the background refresh is a question of the shared audience - what it brings back is
+				// filed under the shared key, so it must not be an answer tailored to that one client's network
+				if c.Q1.ECS != "" || c.Q1.CD {
+					continue
+				}
+				time.Sleep(160 * time.Second)
+				q1e := c.Q1
+				q1e.ECS = "203.0.113.0/24"
+				if m, _ := ask(q1e, c.Client == 1, 9); m == nil {
+					continue
+				}
+				synctest.Wait()
+				notes = append(notes, "refresh-triggered-by-ecs-client")
+				for _, wire := range []bool{false, true} {
+					m, _ := ask(c.Q1, wire, 10)
+					if m == nil {
+						continue
+					}
+					if id, ok := vfC03IdentityOf(m); ok && id != c.Q1.identity() {
+						fail("route refresh-ecs (wire=%v): after a background refresh triggered by a client that sent %s, %v (no subnet) is served an answer the authority gave for another audience", wire, q1e.ECS, c.Q1)
+					}
+				}
 			case "purge":
 				// purging Q2 must leave Q1's own entry answering Q1 (unless they are the same question / same name+type)
 				cc.Purge(dns.Question{Name: c.Q2.Name, Qtype: c.Q2.Qtype, Qclass: c.Q2.Qclass})
@@ -675,7 +699,7 @@ func TestVerifC03Routes(t *testing.T) {
 		if rapid.Bool().Draw(rt, "purge") {
 			routes = append(routes, "purge")
 		} else if rapid.Bool().Draw(rt, "refresh") {
-			routes = []string{"refresh"}
+			routes = []string{rapid.SampledFrom([]string{"refresh", "refresh", "refresh-ecs"}).Draw(rt, "refreshkind")}
 		}
 		c := &vfC03Case{Q1: q1, Q2: q2, Dim: dim, Routes: routes, Client: rapid.IntRange(0, 1).Draw(rt, "client")}
 		v, notes := vfC03Run(t, dir, c)
